@@ -6,7 +6,7 @@ TARGETS = [
     Target('waitq_translate_errno', TC, r'inline int waitq_translate_errno\(int ret\)'),
     Target('cvar_do_wait', TC, r'static int cvar_do_wait\(thread_list\* q, void\* m, Timeout timeout, int\(\*lock\)\(void\*\), void\(\*unlock\)\(void\*\)\)', rules=[
         (r'LOG_ERROR_RETURN\(EINVAL, -1,[^;]*;', '{ errno = EINVAL; return -1; }', 1), (r'LOG_ERROR\([^;]*;', ';', 1),
-        (r'thread_usleep_defer\(', 'thread_usleep_defer_(', 1), (r'thread_usleep\(1000, NULL\)', 'thread_usleep_(1000, NULL)', 1)],
+        (r'thread_usleep_defer\(', 'thread_usleep_defer_(', 1), (r'(\w+)\.(expired|expiration|timeout)\(\)', r'Timeout_\2_(&\1)', 0), (r'thread_usleep\(1000, NULL\)', 'thread_usleep_(1000, NULL)', 1)],
         marks={'count': 1, 0: dict(name='CVW', frame=['lock_ret', 'errno', 'N_LOCK_CALLS', 'N_BACKOFF', 'LOCK_HELD', 'N_LOCK_OK'],
                effects={'lock': ['errno', 'N_LOCK_CALLS', 'LOCK_HELD', 'N_LOCK_OK'], 'thread_usleep_': ['errno', 'N_BACKOFF']}, pure=[])}),
     Target('resume_one', TC, r'thread\* waitq::resume_one\(int error_number\)', pre_rules=[
